@@ -31,21 +31,28 @@ def regionCount (L A : List Nat) (N : Nat) : Nat := (A.take N).countP (inL L)
 (`all_sensors[mask][n_const_sensors:]`) -/
 def bannedOf (L A : List Nat) (s : Nat) : List Nat := (A.filter (inL L)).drop s
 
-def maxNZeros (L A : List Nat) (s N : Nat) (cands : List Nat) : List Bool :=
-  let banned := bannedOf L A s
-  cands.map fun c => decide (regionCount L A N > s) && banned.contains c
+/-- `max_n`: is candidate `c` zeroed?  (independent of the step) -/
+def maxNMasked (L A : List Nat) (s N : Nat) (c : Nat) : Bool :=
+  decide (regionCount L A N > s) && (bannedOf L A s).contains c
 
-def exactNZeros (L A : List Nat) (s N j : Nat) (cands : List Nat) : List Bool :=
+/-- `exact_n`: is candidate `c` zeroed at step `j`? -/
+def exactNMasked (L A : List Nat) (s N j : Nat) (c : Nat) : Bool :=
   let t := regionCount L A N
   let cnt := regionCount L A j
   if t < s then
-    let forced := decide ((N : Int) > j ∧ (j : Int) ≥ (N : Int) - ((s : Int) - (cnt : Int)))
-    cands.map fun c => forced && !(inL L c)
-  else maxNZeros L A s N cands
+    decide ((N : Int) > j ∧ (j : Int) ≥ (N : Int) - ((s : Int) - (cnt : Int))) && !(inL L c)
+  else maxNMasked L A s N c
 
+/-- `predetermined`: is candidate `c` zeroed at step `j`?  (`invert` inside the inclusive window) -/
+def predMasked (L : List Nat) (s N j : Nat) (c : Nat) : Bool :=
+  (inL L c) != decide ((N : Int) - (s : Int) ≤ (j : Int) ∧ j ≤ N)
+
+def maxNZeros (L A : List Nat) (s N : Nat) (cands : List Nat) : List Bool :=
+  cands.map (maxNMasked L A s N)
+def exactNZeros (L A : List Nat) (s N j : Nat) (cands : List Nat) : List Bool :=
+  cands.map (exactNMasked L A s N j)
 def predeterminedZeros (L : List Nat) (s N j : Nat) (cands : List Nat) : List Bool :=
-  let inv := decide ((N : Int) - (s : Int) ≤ (j : Int) ∧ j ≤ N)
-  cands.map fun c => (inL L c) != inv
+  cands.map (predMasked L s N j)
 
 inductive COption | unconstrained | maxN | exactN | predetermined
   deriving DecidableEq, Repr
@@ -58,14 +65,19 @@ structure GqrCfg where
   A : List Nat            -- all_sensors (the unconstrained ranking)
   nSensors : Option Nat   -- n_sensors
 
-/-- the mask (zero pattern over `p[j:]`) the configured function produces at step `j` -/
-def GqrCfg.mask (cfg : GqrCfg) : Mask := fun j p =>
-  let cands := p.toList.drop j
+/-- is candidate `c` zeroed at step `j` under the configured option? -/
+def GqrCfg.masked (cfg : GqrCfg) (j c : Nat) : Bool :=
   match cfg.opt with
-  | .unconstrained => cands.map fun _ => false
-  | .maxN => maxNZeros cfg.L cfg.A cfg.s (effN cfg.nSensors cfg.A) cands
-  | .exactN => exactNZeros cfg.L cfg.A cfg.s (effN cfg.nSensors cfg.A) j cands
-  | .predetermined => predeterminedZeros cfg.L cfg.s (cfg.nSensors.getD 0) j cands
+  | .unconstrained => false
+  | .maxN => maxNMasked cfg.L cfg.A cfg.s (effN cfg.nSensors cfg.A) c
+  | .exactN => exactNMasked cfg.L cfg.A cfg.s (effN cfg.nSensors cfg.A) j c
+  | .predetermined => predMasked cfg.L cfg.s (cfg.nSensors.getD 0) j c
+
+/-- a mask given candidate by candidate -/
+def pmask (φ : Nat → Nat → Bool) : Mask := fun j p => (p.toList.drop j).map (φ j)
+
+/-- the mask (zero pattern over `p[j:]`) the configured function produces at step `j` -/
+def GqrCfg.mask (cfg : GqrCfg) : Mask := pmask cfg.masked
 
 /-- the domain on which the Python functions run without raising -/
 def GqrCfg.inDomain (cfg : GqrCfg) : Bool :=
